@@ -50,5 +50,20 @@ def run(ctx):
     cb = [ctx.body(n) for n in conv]
     t2, d2, l2 = check_panic_surface(ctx, "conversions", cb, AUDITED, what="decimal conversions")
     ctx.ob("conversions|enumerated", True, f"{len(conv)} conversion bodies, {t2} panic-capable construct(s), {l2} within the audited table")
+    ctx.rule("T4 rounding direction of the checked division: the CheckedDiv bodies of Decimal / PreciseDecimal divide with the truncating "
+             "`checked_div` of the wide integer; euclidean / floor / ceiling division (`*_euclid`, `div_floor`, `div_ceil`) rounds negative "
+             "quotients away from zero")
+    bad_div, n_div = [], 0
+    for name, f in sorted(F.fns.items()):
+        if re.search(r"^<radix_common::math::(decimal::Decimal|precise_decimal::PreciseDecimal) as radix_common::math::traits::CheckedDiv", name) or \
+                re.search(r"^<.* as radix_common::math::traits::CheckedDiv<radix_common::math::(decimal::Decimal|precise_decimal::PreciseDecimal)>>", name):
+            for c in f.calls:
+                if re.search(r"::checked_div$", c[0]):
+                    n_div += 1
+                if re.search(r"(div_euclid|rem_euclid|div_floor|div_ceil|checked_div_euclid|checked_rem_euclid)$", c[0]):
+                    bad_div.append((name.rsplit("::", 2)[-2:], c[0].rsplit("::", 1)[-1], f.loc()))
+    ctx.floor("checked-division|truncating-div-sites", n_div, 2)
+    ctx.ob("checked-division|truncates-toward-zero", not bad_div, "checked division uses the truncating wide-integer checked_div only" if not bad_div else
+           f"non-truncating division in a CheckedDiv body: {[(b_[0], b_[1]) for b_ in bad_div]}", bad_div[0][2] if bad_div else "")
     ctx.assume("exactness / truncation toward zero / 'fails exactly when unrepresentable' are numerical and not decided; the operator impls "
                "(Add/Sub/Mul/Div/Neg traits), which panic on overflow by design, are not among the operations the property names")
